@@ -182,7 +182,7 @@ def run_stage(variant, prop, tier, seed, part, total, block, extra=(), hash_mod=
     return res
 
 
-def determinism_recheck(variant, prop, tier, seed, part, total, block, hash_mod, first, extra=(), recheck_block=None):
+def determinism_recheck(variant, prop, tier, seed, part, total, block, hash_mod, first, extra=(), recheck_block=None, all_blocks=False):
     """Re-execute the hash-sampled runs in differently shaped worker blocks; every log hash must match."""
     if not hash_mod or not first.hashes:
         return dict(n=0, mismatches=0)
@@ -194,7 +194,7 @@ def determinism_recheck(variant, prop, tier, seed, part, total, block, hash_mod,
     blocks = []
     s = 0
     while s < total:
-        if recheck_block is None or s % hash_mod == 0:   # single-run blocks: only the sampled runs need a process
+        if recheck_block is None or all_blocks or s % hash_mod == 0:   # single-run blocks: only the sampled runs need a process
             blocks.append((s, min(blk, total - s)))
         s += blk
     with cf.ThreadPoolExecutor(max_workers=NPROC) as ex:
